@@ -21,6 +21,7 @@ POOL = [
     "NULL", "TRUE", "FALSE", "0", "1", "-1", "1180591620717411303424", "0.0", "1.5", "-2.5",
     "''", "'a'", "'abc'", "'1'", "'['", "'+'", "'{1+}'", "'{x#q}'", "3", "[3, 1, 2]", "date('20200101')", "//a//", "[]", "[1, 'a']", "[[1, 2], [3, 4]]", "<<>>", "<<1, 2>>",
     "<<<>>>", "<<<'a' => 1>>>", "<*a=1*>", "fn(x) x", "str_output()", "str_input('x')",
+    "'123456789'", "'20200101'", "<*_str_ = fn(self) 'obj', a = 1*>", "<*_str_ = 5*>", "<*_proto_ = 5, a = 1*>", "fn(a, b) 'x'",
 ]
 HUGE = "1180591620717411303424"
 SMALL = ["NULL", "TRUE", "0", "-1", "1.5", "''", "'abc'", "[]", "[1, 'a']", "<<1, 2>>", "<<<'a' => 1>>>", "<*a=1*>", "fn(x) x"]
@@ -39,6 +40,10 @@ OPFORMS = [
     ("{0}->a", 1), ("{0}->a()", 1), ("{0} !> identity()", 1), ("{0}({1})", 2), ("if {0} then 1 else 2", 1), ("while {0} do break end", 1),
     ("error {0}", 1), ("do error {0} catch {1} 5 end", 2), ("{0} == {0}", 1), ("{0} < {0}", 1), ("string({0})", 1),
     ("for i in {0} do for i in {1} do i end end", 2),
+    ("def c = {0}; for i in keys c do c['k' + string(i)] = 1 end", 1), ("def c = {0}; for i in c do c[i] = 1 end", 1),
+    ("def c = {0}; for i in c do remove(c, i) end", 1), ("def c = <<<1 => 'a', 2 => 'b', 3 => 'c'>>>; for k in keys c do if k == 1 then remove(c, {0}) end", 1),
+    ("def c = <<<1 => 'a', 2 => 'b'>>>; for [k, v] in entries c do remove(c, 2) end", 0), ("def c = <<<1 => 'a', 2 => 'b'>>>; for v in c do remove(c, 2) end", 0), ("sorted({0}, {1})", 2), ("[[i, j] for i in values {0} also for j in keys {1}]", 2),
+    ("<<[i, j] for i in entries {0} also for j in values {1}>>", 2),
 ]
 MUTFORMS = [("a0[{1}] = {2}", 3), ("a0->a = {1}", 2)]
 
